@@ -29,6 +29,12 @@ CLAIMED = {
  "C01": ("universally-quantified reaching-condition checks over all reflect kinds + sibling agreement (Pointerify vs overlay walk) + induction-variable flow + dominance (go/ssa)",
          "Decides argument-order stacking (slot i from sources[i], forward range in compose onto one base), that no mutation in the leaf overlay is reachable for a nil overlay of any kind Pointerify can emit, that every retained pointerified field type is nil-able, that Pointerify and the overlay walk omit exactly the same fields (same OmitField object, same {Chan,Func} set) with the overlay index advancing exactly on retained fields, and that every call of the struct merge has a dominating struct-kind fact for its base (the 'non-struct call' panic precondition).",
          "Not decided: leaf values computed by reflection for arbitrary types/values. Assumes the documented Source contract (pointerified twin) and that T is a struct type."),
+ "C02": ("def-use flow (who can see the caller's / a source's memory) + kind-exhaustiveness + universally-quantified reaching-condition checks of the copier's handlers (go/ssa)",
+         "Decides that the caller's defaults are only type-inspected and deep-copied; compose merges a per-stack deep copy of each slot value into a fresh deep copy of the defaults; slots are only read after the identity-matched replacement; everything published derives from a compose result; the copier routes every reference-bearing kind, descends into exactly the exported fields, and in the Ptr/Map/Slice/Interface handlers every exit without freshly allocated (or memoised) storage is explained by nil input / already-distinct output.",
+         "Not decided: deep equality of contents (reflection at run time). Chan/Func/UnsafePointer and unexported fields are shared by documented intent."),
+ "C03": ("memo-discipline dominance rules over the copier's recursive call-graph component (go/ssa + call graph)",
+         "Decides the mechanism that makes copying of cyclic/shared graphs terminate and preserve identity: every pointer dereference or map iteration feeding a descent in the copier's recursive component is dominated in the same function by a memo lookup keyed on that reference whose hit returns and by the memo registration; the interface handler has no reference-crossing descent of its own; no member starts a fresh copier; temporaries whose location is memoised are allocated per iteration.",
+         "Not decided: equality of the copied contents; slices that contain themselves through an interface (outside the property's node family). Trusted: reflect.Value.Pointer identity."),
 }
 
 NOT_YET = {}
